@@ -113,8 +113,9 @@ pub fn lockstep(emu: &mut Emu, prog: &Prog, opts: &LsOpts, ctl: &mut dyn FnMut(&
     pre.map.insert(WCRL, prog.bus.wcrl);
     pre.map.insert(DRCRA, prog.bus.drcra);
     for (&a, &v) in pre.map.iter() {
-        raw_set(&mut emu.cpu.bus, a, v);
+        emu.set_byte(a, v);
     }
+    emu.set_bus_cfg(&prog.bus);
     emu.cpu.er = prog.er;
     emu.set_ccr(prog.ccr);
     emu.set_pc(prog.pc);
